@@ -242,6 +242,7 @@ func cmdCheck(args []string) int {
 			continue
 		}
 		vc := newFnVC(p, fn, p.cs.Funcs[id], id)
+		vc.prop = *prop
 		scanOnly := !hasTag(vc.fc.Tags, *prop)
 		for _, cl := range vc.fc.Ensures {
 			if hasTag(cl.Tags, *prop) {
@@ -282,6 +283,7 @@ func cmdCheck(args []string) int {
 				continue
 			}
 			gvc := newFnVC(p, fn, p.cs.Funcs[id], id)
+			gvc.prop = *prop
 			gvc.extraAssume = []string{"!(" + kf.Witness + ")"}
 			gvc.generate()
 			for _, o := range gvc.obls {
@@ -482,7 +484,7 @@ func cmdCheck(args []string) int {
 		path := writeReplay(replayDir, o, *prop)
 		suffix := ""
 		confirmed := false
-		if r.Status == "sat" && replaysTried < 2 {
+		if (r.Status == "sat" || r.CandidateQF) && replaysTried < 2 {
 			replaysTried++
 			confirmed = tryReplay(p, o, path)
 		}
